@@ -86,6 +86,7 @@ inline std::string genMessage(Src &s, const World &w, const MsgOpt &opt = MsgOpt
         if (s.prob(1, 20) && !items.empty()) items.pop_back();                                          // missing
         if (s.prob(1, 25)) items.push_back(genMalformed(s));
         for (size_t i = 0; i < items.size(); i++) msg += (i ? "," : " ") + wsp(s, 1) + items[i] + wsp(s, 1);
+        if (items.empty() && s.prob(1, 5)) msg += wsp(s, 2) + " ";                                    // header followed by white space only
     }
     if (opt.terminate) msg += s.pick(std::vector<std::string>{"\n", "\r\n", "\r", "\n"});
     return msg;
